@@ -782,7 +782,7 @@ Proof.
   destruct (linked shdrs n SHT_GNU_versym [SHT_SYMTAB; SHT_DYNSYM]) as [[h sy]|] eqn:E; [|discriminate].
   destruct (nth_error shdrs (Z.to_nat (sh_link sy))) as [st|] eqn:Est; [|discriminate].
   intros H. rewrite !andb_true_iff in H.
-  destruct H as [[[[[[Hl Hst] Heh] Hsh] Hes] Hss] Htab].
+  destruct H as [[[[[[[Hl Hst] Heh] Hsh] Hes] Hss] Hsk] Htab].
   apply linked_inv in E. destruct E as (Hn & Ht & Hlk & Hk & Hkt).
   assert (Hsec : get_section is64 shdrs (Z.of_nat n) = Ok (GNUVerSymSection h (sy, st))).
   { unfold get_section. rewrite (get_section_header_nat _ _ _ Hn). cbn [bind]. unfold make_section.
@@ -791,9 +791,7 @@ Proof.
     rewrite (type_symtab is64 sy Hkt). cbn [negb].
     rewrite (linked_strtab is64 shdrs (sh_link sy) st) by (try assumption; lia). cbn [bind].
     replace (sh_entsize sy >? 0) with true by lia. cbn [negb].
-    replace (sh_size sy mod sh_entsize sy =? 0) with true.
-    2:{ symmetry. apply Z.eqb_eq. apply Z.eqb_eq in Hss. rewrite Hss. apply Z.mod_mul. lia. }
-    reflexivity. }
+    rewrite Hss. reflexivity. }
   unfold file_versym_symbols, file_versym_num_symbols. rewrite Hsec. cbn [bind].
   assert (Hnum : versym_num_symbols h = Ok (zlen entries)).
   { unfold versym_num_symbols. replace (sh_entsize h =? 0) with false by lia.
